@@ -19,12 +19,36 @@ fn close<F: Fl>(a: f64, b: f64, ulps: f64, scale: f64) -> bool {
     a == b || (a.is_finite() && b.is_finite() && (a - b).abs() <= ulps * F::U * a.abs().max(b.abs()) * scale)
 }
 
-fn judge_sample<F: Fl>(xv: &[f64], confs: &[(Kind, f64)], s: &mut Sink) {
-    let xs: Vec<F> = xv.iter().map(|&x| F::of(x)).collect();
+/// long samples are cycles of their first three values: rendered and recorded compactly
+struct Show<'a>(&'a [f64]);
+impl std::fmt::Debug for Show<'_> {
+    fn fmt(&self, f: &mut std::fmt::Formatter<'_>) -> std::fmt::Result {
+        if self.0.len() <= 64 {
+            write!(f, "{:?}", self.0)
+        } else {
+            write!(f, "[{:?} cycled to {} observations]", &self.0[..3], self.0.len())
+        }
+    }
+}
+fn xs_json(xv: &[f64]) -> Value {
+    if xv.len() <= 64 {
+        json!(xv)
+    } else {
+        json!({"cycle": &xv[..3], "n": xv.len()})
+    }
+}
+fn cycle(pat: &[f64], n: usize) -> Vec<f64> {
+    (0..n).map(|i| pat[i % pat.len()]).collect()
+}
+
+fn judge_sample<F: Fl>(xv_full: &[f64], confs: &[(Kind, f64)], s: &mut Sink) {
+    let xv = Show(xv_full);
+    let xv = &xv;
+    let xs: Vec<F> = xv_full.iter().map(|&x| F::of(x)).collect();
     let logs: Vec<F> = xs.iter().map(|x| x.ln()).collect();
     let recs: Vec<F> = xs.iter().map(|x| F::one() / *x).collect();
     let n = xs.len() as f64;
-    let case0 = || json!({"check":"sample","type":F::NAME,"xs":xv});
+    let case0 = || json!({"check":"sample","type":F::NAME,"xs":xs_json(xv_full)});
     // --- sample means and standard errors -------------------------------------------
     let g = Geometric::<F>::from_iter(&xs).unwrap();
     let h = Harmonic::<F>::from_iter(&xs).unwrap();
@@ -67,7 +91,7 @@ fn judge_sample<F: Fl>(xv: &[f64], confs: &[(Kind, f64)], s: &mut Sink) {
         s.evals += 1;
         s.calls += 6;
         let c = conf(kind, level);
-        let case = || json!({"check":"sample","type":F::NAME,"xs":xv,"kind":kind,"level":level});
+        let case = || json!({"check":"sample","type":F::NAME,"xs":xs_json(xv_full),"kind":kind,"level":level});
         // geometric: exp of the real arithmetic interval of the logarithms
         let want: CIResult<Interval<F>> = Arithmetic::<F>::ci(c, &logs);
         for (name, got) in [("Geometric::ci", Geometric::<F>::ci(c, &xs)), ("Geometric::ci_mean", g.ci_mean(c))] {
@@ -361,10 +385,13 @@ fn replay_state<R: Reg>(case: &Value, s: &mut Sink) {
 
 enum Job {
     S(Vec<f64>, bool),
+    /// a long sample (judged at the quick confidences in both tiers)
+    L(Vec<f64>, bool),
 }
 
 fn run(tier: Tier, states: &mut u64) -> Sink {
     let confs = vcheck::confs(tier);
+    let confs_q = vcheck::confs(Tier::Quick);
     let mut jobs = vec![];
     for f32_ in [false, true] {
         for len in 2..=tier.pick(3, 6) {
@@ -390,6 +417,13 @@ fn run(tier: Tier, states: &mut u64) -> Sink {
                 }
             }
         }
+        // long samples (cycles of three values): sizes around and beyond 100 000 observations,
+        // where the arithmetic interval in the transformed space switches to the normal quantile
+        for pat in [[0.5, 2.0, 3.7], [1.0, 1.0625, 1.25], [1000.0, 0.25, 8.0]] {
+            for n in [1_000usize, 99_999, 100_000, 100_001, 100_002, 131_072, 250_000] {
+                jobs.push(Job::L(cycle(&pat, n), f32_));
+            }
+        }
         for &x in &POS {
             jobs.push(Job::S(vec![x, x * (1.0 + 2f64.powi(-20)), x], f32_));
             jobs.push(Job::S(vec![x, x, x], f32_));
@@ -398,6 +432,8 @@ fn run(tier: Tier, states: &mut u64) -> Sink {
     let mut s = par_judge(&jobs, |j, s| match j {
         Job::S(x, false) => judge_sample::<f64>(x, &confs, s),
         Job::S(x, true) => judge_sample::<f32>(x, &confs, s),
+        Job::L(x, false) => judge_sample::<f64>(x, &confs_q, s),
+        Job::L(x, true) => judge_sample::<f32>(x, &confs_q, s),
     });
     let depth = tier.pick(3, 5);
     let mut st = 0;
@@ -419,7 +455,11 @@ fn replay_case(case: &Value, s: &mut Sink) {
         }
         return;
     }
-    let xs: Vec<f64> = serde_json::from_value(case["xs"].clone()).unwrap();
+    let xs: Vec<f64> = if case["xs"].is_array() {
+        serde_json::from_value(case["xs"].clone()).unwrap()
+    } else {
+        cycle(&serde_json::from_value::<Vec<f64>>(case["xs"]["cycle"].clone()).unwrap(), case["xs"]["n"].as_u64().unwrap() as usize)
+    };
     let confs = match (case.get("kind"), case.get("level")) {
         (Some(k), Some(l)) if !k.is_null() => vec![(serde_json::from_value::<Kind>(k.clone()).unwrap(), l.as_f64().unwrap())],
         _ => vcheck::confs(Tier::Quick),
